@@ -6,6 +6,9 @@
 //!   [cp,..]                                             every chain on this text  -> ev "tok"
 //!   {"sn":{"text":[cp..],"chain":i,"terms":[[cp..]..],"max":n}}   a snippet        -> ev "snip"
 //!   {"big":{"runs":[[cp,n]..],"chain":i}}               a huge run-length text     -> ev "big"
+//!   {"tk":{"text":[cp..],"chain":{chain}}}              one chain given in line    -> ev "tok1"
+//! "chain" of a snippet may also be a chain object (a compound splitter whose dictionary was cut
+//! out of the words of that text).
 //! A panic of the code under test is recorded ("panic" in place of the observation).
 use serde_json::{json, Value};
 use std::collections::BTreeMap;
@@ -96,10 +99,14 @@ fn main() {
             writeln!(out, "{}", json!({"ev":"tok","text":v,"obs":obs})).unwrap();
         } else if let Some(sn) = v.get("sn") {
             let text = text_of(&sn["text"]);
-            let ci = sn["chain"].as_u64().unwrap() as usize;
+            // the chain: an index into the header's chains, or a chain of its own
+            let inline = sn["chain"].is_object();
+            let chain_id: Value = sn["chain"].clone();
+            let ci = chain_id.as_u64().unwrap_or(0) as usize;
+            let base: TextAnalyzer = if inline { build_chain(&chain_id) } else { analyzers[ci - 1].clone() };
             let max = sn["max"].as_u64().unwrap() as usize;
             let terms: BTreeMap<String, f32> = sn["terms"].as_array().unwrap().iter().enumerate().map(|(i, t)| (text_of(t), 1.0 / (1.0 + i as f32))).collect();
-            let an = analyzers[ci - 1].clone();
+            let an = base.clone();
             let r = catch_unwind(AssertUnwindSafe(|| {
                 let g = SnippetGenerator::new(terms.clone(), an.clone(), Field::from_field_id(0), max);
                 let s = g.snippet(&text);
@@ -112,20 +119,30 @@ fn main() {
                 Ok((frag, hl, html)) => {
                     // what the chain yields on the text under each highlighted range (an observation:
                     // slicing at a non-boundary would panic - recorded as such)
-                    let mut an2 = analyzers[ci - 1].clone();
+                    let mut an2 = base.clone();
                     let hl_tokens: Vec<Value> = hl
                         .iter()
                         .map(|(f, t)| match catch_unwind(AssertUnwindSafe(|| frag[*f..*t].to_string())) {
-                            Ok(slice) => Value::Array(tokens(&mut an2, &slice).into_iter().map(|t| t[3].clone()).collect()),
+                            Ok(slice) => match catch_unwind(AssertUnwindSafe(|| tokens(&mut an2, &slice))) {
+                                Ok(ts) => Value::Array(ts.into_iter().map(|t| t[3].clone()).collect()),
+                                Err(_) => json!("the analyzer panicked on the highlighted slice"),
+                            },
                             Err(_) => json!("not a character boundary"),
                         })
                         .collect();
-                    writeln!(out, "{}", json!({"ev":"snip","text":sn["text"],"chain":ci,"terms":sn["terms"],"max":max,
+                    writeln!(out, "{}", json!({"ev":"snip","text":sn["text"],"chain":chain_id,"terms":sn["terms"],"max":max,
                         "fragment":cps(&frag),"highlighted":hl.iter().map(|(f, t)| json!([f, t])).collect::<Vec<_>>(),"html":cps(&html),"hl_tokens":hl_tokens})).unwrap();
                 }
                 Err(e) => {
-                    writeln!(out, "{}", json!({"ev":"panic","op":"snippet","text":sn["text"],"chain":ci,"terms":sn["terms"],"max":max,"msg":panic_msg(e)})).unwrap();
+                    writeln!(out, "{}", json!({"ev":"panic","op":"snippet","text":sn["text"],"chain":chain_id,"terms":sn["terms"],"max":max,"msg":panic_msg(e)})).unwrap();
                 }
+            }
+        } else if let Some(tk) = v.get("tk") {
+            let text = text_of(&tk["text"]);
+            let mut an = build_chain(&tk["chain"]);
+            match catch_unwind(AssertUnwindSafe(|| tokens(&mut an, &text))) {
+                Ok(ts) => writeln!(out, "{}", json!({"ev":"tok1","text":tk["text"],"chain":tk["chain"],"tokens":ts})).unwrap(),
+                Err(e) => writeln!(out, "{}", json!({"ev":"panic","op":"tokens","text":tk["text"],"chain":tk["chain"],"msg":panic_msg(e)})).unwrap(),
             }
         } else if let Some(big) = v.get("big") {
             let ci = big["chain"].as_u64().unwrap() as usize;
